@@ -31,11 +31,14 @@ open VgiVerif.Sched
 structure Shape where
   clearOnAccept : Bool    -- `shutdown_requested = False` in the accept critical section
   checkCurrent : Bool     -- the timer callback returns at once unless `timer is` the timer that fired
+  regInHandler : Bool     -- WHERE a connection is counted (`conn_count += 1; _cancel_timer_locked() [; clear]`): `false` = in
+                          -- the accept loop before the connection's thread exists, `true` = first thing in that thread
 deriving Repr, DecidableEq
 
-def Shape.extracted : Shape := ⟨Gen.C33.clearsFlagOnAccept, Gen.C33.callbackChecksCurrent⟩
-def Shape.pinned : Shape := ⟨false, false⟩
-def Shape.repaired : Shape := ⟨true, true⟩
+def Shape.extracted : Shape :=
+  ⟨Gen.C33.clearsFlagOnAccept, Gen.C33.callbackChecksCurrent, Gen.C33.registersInHandler⟩
+def Shape.pinned : Shape := ⟨false, false, false⟩
+def Shape.repaired : Shape := ⟨true, true, false⟩
 
 structure Cfg where
   idle : Option Nat     -- `idle_timeout` (`None` = never self-terminate)
@@ -63,7 +66,9 @@ deriving Repr, DecidableEq
 
 /-- handler thread of one connection -/
 inductive HPc where
-  | none | started | permitted | serving | served | released | done
+  | none
+  | spawned     -- thread started, connection not yet counted (only when the handler does the counting)
+  | started | permitted | serving | served | released | done
 deriving Repr, DecidableEq
 
 structure St where
@@ -88,6 +93,7 @@ inductive Label where
   | tick (d : Nat)
   | sockAccept (c : Conn)                -- `conn, _ = sock.accept()`
   | register                             -- `with state_lock: conn_count += 1; _cancel_timer_locked() [; shutdown_requested = False]`
+  | hregister (c : Conn)                 -- the same section as `register`, run by the connection's own thread (`regInHandler`)
   | addActive                            -- `with state_lock: active.add(t)`
   | spawn                                -- `t.start()`
   | acceptTimeout                        -- `except TimeoutError`
@@ -137,17 +143,25 @@ def step (sh : Shape) (cfg : Cfg) (s : St) : Label → Option St
   | .register =>
     match s.lpc with
     | .got c =>
+      if sh.regInHandler then none else
       let s1 := cancelCur s
       some { s1 with connCount := s.connCount + 1, flag := if sh.clearOnAccept then false else s.flag,
                      live := c :: s.live, lpc := .registered c }
     | _ => none
+  | .hregister c =>
+    if sh.regInHandler ∧ s.hpc c = .spawned then
+      let s1 := cancelCur s
+      some { s1 with connCount := s.connCount + 1, flag := if sh.clearOnAccept then false else s.flag,
+                     live := c :: s.live, hpc := upd s.hpc c .started }
+    else none
   | .addActive =>
     match s.lpc with
     | .registered c => some { s with lpc := .added c }
+    | .got c => if sh.regInHandler then some { s with lpc := .added c } else none
     | _ => none
   | .spawn =>
     match s.lpc with
-    | .added c => some { s with lpc := .atAccept, hpc := upd s.hpc c .started }
+    | .added c => some { s with lpc := .atAccept, hpc := upd s.hpc c (if sh.regInHandler then .spawned else .started) }
     | _ => none
   | .acceptTimeout =>
     match s.lpc with
